@@ -296,4 +296,89 @@ theorem pending_linear (cfg : Cfg) (pre rest : List MFile) (revs : List Revision
     · simp [pending, hrl, hr0, hpa, hskip, hne, hbs, hm]
     · simp [pending, hrl, hr0, hskip, hne, hpa, hbs, hm, hnorm, finish]
 
+/-! ### the out-of-order window, the execution-order clauses, the baseline -/
+
+/-- in a revision table sorted by version, the binary search of `outOfOrder` says "has a revision"
+exactly for the versions that are in the table. -/
+theorem has_revision_iff (revs : List Revision) (hs : (revs.map (·.version)).Pairwise (· < ·)) (v : String) :
+    (bsearch (fun (r : Revision) => decide (r.version < v)) (fun (r : Revision) => r.version == v) revs).2 = true ↔
+      v ∈ revs.map (·.version) := by
+  constructor
+  · intro h
+    by_cases hm : v ∈ revs.map (·.version)
+    · exact hm
+    · have := bsearch_not_found (fun (r : Revision) => decide (r.version < v)) (fun (r : Revision) => r.version == v) revs
+        (by intro x hx; simp; intro he; exact hm (List.mem_map.mpr ⟨x, hx, he⟩))
+      rw [this] at h; cases h
+  · intro hm
+    obtain ⟨r, hr, hv⟩ := List.mem_map.mp hm
+    obtain ⟨i, hi, hri⟩ := List.getElem_of_mem hr
+    have := bsearch_found (fun (r : Revision) => r.version) revs hs v i hi (by rw [hri]; exact hv)
+    rw [this]
+
+/-- **out_of_order_exact**: when the window is examined, the skipped files are exactly the files of
+the window `[first, idx)` that have no revision, in directory order. -/
+theorem out_of_order_exact (cfg : Cfg) (migrations : List MFile) (revs : List Revision) (r0 : Revision) (idx first : Nat)
+    (hs : (revs.map (·.version)).Pairwise (· < ·))
+    (hf : indexFunc (fun f => decide (f.version ≥ r0.version)) (migrations.take idx) = some first)
+    (hlt : first < idx) (ho : cfg.order ≠ .linearSkip) :
+    outOfOrder cfg migrations revs r0 idx =
+      some (((migrations.take idx).drop first).filter (fun f => decide (f.version ∉ revs.map (·.version)))) := by
+  unfold outOfOrder
+  rw [hf]
+  have hcond : (decide (first < idx) && cfg.order != Order.linearSkip) = true := by
+    simp [hlt, ho]
+  simp only [hcond, if_true]
+  congr 1
+  apply List.filter_congr
+  intro f _
+  have := has_revision_iff revs hs f.version
+  by_cases hm : f.version ∈ revs.map (·.version)
+  · rw [this.mpr hm]; simp [hm]
+  · have hb : (bsearch (fun (r : Revision) => decide (r.version < f.version)) (fun (r : Revision) => r.version == f.version) revs).2 = false := by
+      cases hb' : (bsearch (fun (r : Revision) => decide (r.version < f.version)) (fun (r : Revision) => r.version == f.version) revs).2 with
+      | false => rfl
+      | true => exact absurd (this.mp hb') hm
+    rw [hb]; simp [hm]
+
+/-- **order_clauses**: what `Pending` does with a non-empty set of skipped (out-of-order) files:
+`linear` rejects, `linear-skip` ignores them, `non-linear` runs them first. -/
+theorem order_clauses (cfg : Cfg) (migrations : List MFile) (revs : List Revision) (r0 last : Revision)
+    (idx0 : Nat) (s : MFile) (ss : List MFile)
+    (hcomplete : last.applied = last.total)
+    (hidx : lastIndex (fun f => decide (f.version ≤ last.version)) migrations = some idx0)
+    (hskip : outOfOrder cfg migrations revs r0 (idx0 + 1) = some (s :: ss)) :
+    normal cfg migrations revs r0 last =
+      match cfg.order with
+      | .nonLinear => finish ((s :: ss) ++ migrations.drop (idx0 + 1))
+      | .linear => .error (.nonLinear (s :: ss) (migrations.drop (idx0 + 1)))
+      | .linearSkip => finish (migrations.drop (idx0 + 1)) := by
+  unfold normal
+  have hp : (last.total != last.total) = false := by simp
+  simp only [hcomplete, hp, Bool.false_eq_true, if_false, hidx, beq_self_eq_true, if_true, hskip]
+  cases cfg.order <;> rfl
+
+/-- **baseline_skips_le**: a first run with `--baseline v` writes the baseline revision for `v` and
+returns exactly the files after `v` (none of `v` or before). -/
+theorem baseline_skips_le (cfg : Cfg) (all pre post : List MFile) (b : MFile)
+    (hsplit : skipCheckpoints all = pre ++ b :: post) (hb : cfg.baseline = b.version) (hne : b.version ≠ "")
+    (hpost : ∀ f ∈ post, f.version ≠ b.version) :
+    pending cfg all [] =
+      ⟨some { version := b.version, desc := b.desc, typ := 1 },
+       if post = [] then .error .noPending else .ok post⟩ := by
+  have h1 : (!cfg.clean && !cfg.allowDirty && cfg.baseline == "") = false := by
+    simp [hb, hne]
+  have h2 : (cfg.baseline != "") = true := by simp [hb, hne]
+  have hli : lastIndex (fun f => f.version == cfg.baseline) (pre ++ b :: post) = some pre.length := by
+    apply lastIndex_split
+    · simp [hb]
+    · intro x hx; simp [hb, hpost x hx]
+  simp only [pending, List.getLast?_nil, firstRun, h1, h2, Bool.false_eq_true, if_false, if_true, hsplit, hli]
+  have hget : (pre ++ b :: post)[pre.length]! = b := by simp
+  have hdrop : (pre ++ b :: post).drop (pre.length + 1) = post := by simp
+  rw [hget, hdrop]
+  cases post <;> simp
+
+
+
 end Props.C11
